@@ -385,7 +385,7 @@ ChildOutcome run_in_child(Engine* eng, const Case& c) {
     close(fds[1]);
     int devnull = open("/dev/null", O_WRONLY);
     if (devnull >= 0) dup2(devnull, 2);
-    alarm(60);
+    alarm(getenv("SIM_CHILD_ALARM") ? static_cast<unsigned>(atoi(getenv("SIM_CHILD_ALARM"))) : 60);
     set_die_context(c.seed, eng->name());
     Result r = eng->run(c);
     J j = result_json(eng, c, r);
